@@ -110,6 +110,7 @@ def c04_oracle(case, ans):
 class C04(PropBase):
     pid = "C04"
     coq_dirs = ["Base", "Gen", "C08", "C05", "C04"]
+    translators = ["unwind_consts.py"]
     bins = ["c05"]
     impl_timeout = 300
     rule = ("cases = well-formed synthetic threads: (a) scan-findable stacks laid out by the Coq builder scan_layout, depth 1..64, gaps up "
